@@ -558,6 +558,9 @@ type c04Case struct {
 	Second  bool   `json:"second_fault"`      // a second SIGKILL during the restarted run
 	BadRow  int    `json:"bad_row,omitempty"` // > 0: a row whose URL cannot be parsed (bad percent escape, as the text/* link extractor can queue) sits at this position of the queue
 	HoldOn  string `json:"hold_on,omitempty"` // cdx faults: hold the WARC write of the first URL containing this text (instead of the N-th write)
+	// HTTPTimeout: "" = not given (the default, -1: none); otherwise the value of --http-timeout. 0 also means "no
+	// timeout" (every consumer of the setting treats values <= 0 alike); 60 is far above anything a case needs.
+	HTTPTimeout string `json:"http_timeout,omitempty"`
 }
 
 var c04Points = []string{"lq.get.committed", "lq.consumer.beforeInsert", "archiver.beforeDo", "archiver.afterFeedback", "postprocessor.forward",
@@ -576,6 +579,7 @@ func genC04(t *rapid.T) c04Case {
 	if rapid.IntRange(0, 3).Draw(t, "badrow") == 0 {
 		c.BadRow = rapid.IntRange(1, min(c.Rows-1, 4)).Draw(t, "badrowat")
 	}
+	c.HTTPTimeout = []string{"", "", "0", "60"}[rapid.IntRange(0, 3).Draw(t, "httptimeout")]
 	if c.Fault == "cdx-kill" {
 		c.Assets = 2 // two assets are captured concurrently (--max-concurrent-assets 2); the WARC write of one of them is held back
 		if rapid.Bool().Draw(t, "holdon") {
@@ -623,6 +627,14 @@ func lqRows(dbPath string) ([]lqRow, error) {
 }
 
 func c04Args(c c04Case, o *Origin) []string {
+	args := c04BaseArgs(c, o)
+	if c.HTTPTimeout != "" {
+		args = append(args, "--http-timeout", c.HTTPTimeout)
+	}
+	return args
+}
+
+func c04BaseArgs(c c04Case, o *Origin) []string {
 	if c.Fault == "term-cdx-kill" || c.Fault == "cdx-kill" {
 		// the origin also plays a (slow) CDX dedupe server: every WARC write first asks it about the payload
 		return []string{"get", "url", o.URL("/boot"), "--job", "j1", "--workers", "1", "--max-concurrent-assets", "2", "--max-retry", "0",
@@ -964,7 +976,8 @@ func TestVerif_C04_Proc(t *testing.T) {
 	// one directed case per shard: the multi-step fault kinds are too rare to rely on random draws in the quick tier
 	if i := veriflib.ShardIndex(); i%4 == 2 {
 		// hold the write of the first / of the second asset of a page: whichever capture of the pair is started first
-		propC04(t, c04Case{Rows: 6 + i, Workers: 1, Assets: 2, Fault: "cdx-kill", N: i / 2, HoldOn: fmt.Sprintf("/p%d/a%d.png", i%3, (i/4)%2)})
+		// (every other one of these with --http-timeout 0, which means "no timeout" like the default -1)
+		propC04(t, c04Case{Rows: 6 + i, Workers: 1, Assets: 2, Fault: "cdx-kill", N: i / 2, HoldOn: fmt.Sprintf("/p%d/a%d.png", i%3, (i/4)%2), HTTPTimeout: []string{"0", ""}[(i/4)%2]})
 	} else if i%2 == 0 {
 		propC04(t, c04Case{Rows: 6 + i, Workers: 1, Assets: 1 + i%2, Fault: "term-cdx-kill", N: i / 2})
 	} else {
